@@ -159,14 +159,15 @@ structure Dispatch where
   primKind : Fall
   deriving DecidableEq, Repr
 
-/-- the repaired extractor's tables (tied to the source by `Props/C20.dispatch_matches_source`) -/
+/-- the repaired extractor's tables (tied to the source by `Props/C20.dispatch_matches_source`);
+    the sets are listed in the order of `Kind`'s constructors, only membership matters -/
 def modelDispatch : Dispatch where
   top := [.member_dot, .member_index]
-  dotRoots := [.member_dot, .member_index, .member_dot_arg, .primary]
-  argRoots := [.member_dot, .member_index, .member_dot_arg, .primary, .ident]
-  idxRoots := [.member_dot, .member_index, .member_dot_arg, .primary]
-  idxTerms := [.primary, .expr]
-  primKinds := [.ident, .literal]
+  dotRoots := [.member_dot, .member_dot_arg, .member_index, .primary]
+  argRoots := [.member_dot, .member_dot_arg, .member_index, .primary, .ident]
+  idxRoots := [.member_dot, .member_dot_arg, .member_index, .primary]
+  idxTerms := [.expr, .primary]
+  primKinds := [.literal, .ident]
   dotLen := .skip
   dotRoot := .skip
   argLen := .skip
